@@ -63,7 +63,6 @@ impl<'a> FindPath<'a> {
     //@+ requires
     //@+     tree_wf(old(self).store@),
     //@+     old(self).current matches Some(c) ==> c.0 < old(self).store@.len(),
-    //@+     forall|i: int| 0 <= i < old(self).store@.len() ==> rect_ok(#[trigger] old(self).store@[i].value),
     //@+ ensures
     //@+     final(self).store == old(self).store,
     //@+     old(self).current is None ==> r is None && final(self).current is None && final(self).pos == old(self).pos,
@@ -78,13 +77,12 @@ impl<'a> FindPath<'a> {
     //@+                 None => final(self).pos == old(self).pos })),
     //@subst N5 associated type of the dropped trait impl spelled out /Self::Item/&'a Layout/
     //@proof before:/while\slet/ proof { assert(node_ok(self.store@[current_id.0 as int], current_id.0 as int, self.store@.len() as int)); }
-    //@proof loop1.start proof { assert(node_ok(self.store@[child_id.0 as int], child_id.0 as int, self.store@.len() as int)); assert(rect_ok(self.store@[child_id.0 as int].value)); }
+    //@proof loop1.start proof { assert(node_ok(self.store@[child_id.0 as int], child_id.0 as int, self.store@.len() as int)); }
     //@loop 1 invariant_except_break
     //@loop 1     self.current is None, self.pos == old(self).pos,
     //@loop 1     first_hit(self.store@, child_id_opt, old(self).pos) == first_hit(self.store@, self.store@[current_id.0 as int].child_first, old(self).pos),
     //@loop 1 invariant
     //@loop 1     self.store == old(self).store, tree_wf(self.store@), current_id.0 < self.store@.len(),
-    //@loop 1     forall|i: int| 0 <= i < self.store@.len() ==> rect_ok(#[trigger] self.store@[i].value),
     //@loop 1     child_id_opt matches Some(k) ==> current_id.0 < k.0 < self.store@.len(),
     //@loop 1 ensures
     //@loop 1     self.current == first_hit(self.store@, self.store@[current_id.0 as int].child_first, old(self).pos),
